@@ -25,3 +25,12 @@ M("lsbud-call-dunder", "linesearch.py", "            steplength, _, dphi0, task 
 M("lsbud-second-eval", "linesearch.py", "            dphi_m1 = dphi_m1.dot(d)\n", "            dphi_m1 = dphi_m1.dot(d)\n            _f_half = sf.fun(np.clip(x0 + 0.5 * steplength * d, lb, ub))\n", ["LSBUD"])
 M("lsbud-guard-le", "linesearch.py", "    while _iter < max_iter:\n", "    while _iter <= max_iter:\n", ["LSBUD"])
 M("lsbud-counter-starts-negative", "linesearch.py", "    _iter = 0\n", "    _iter = -1\n", ["LSBUD"])
+
+# ---- LSPROTO (from the mutation sweep's survivors)
+M("lsproto-step-not-fed-back", "linesearch.py", "            steplength_0 = steplength\n", "", ["LSPROTO"], canary=True)
+M("lsproto-slope-not-projected", "linesearch.py", "            dphi_m1 = dphi_m1.dot(d)\n", "            dphi_m1 = dphi_m1.sum()\n", ["LSPROTO"])
+M("lsproto-fg-negated", "linesearch.py", '        if task[:2] == b"FG":\n', '        if task[:2] != b"FG":\n', ["LSPROTO"])
+M("lsproto-no-break", "linesearch.py", "        else:\n            break\n        _iter += 1\n", "        _iter += 1\n", ["LSPROTO"])
+M("lsproto-eval-at-previous-step", "linesearch.py", "            f_m1, dphi_m1 = sf.fun_and_grad(np.clip(x0 + steplength * d, lb, ub))\n",
+  "            f_m1, dphi_m1 = sf.fun_and_grad(np.clip(x0 + steplength_0 * d, lb, ub))\n", ["LSPROTO"],
+  also=[("linesearch.py", "            steplength_0 = steplength\n", "")], note="evaluates the previous step")
